@@ -1,7 +1,7 @@
 """C06 A wrong key is always rejected and yields no plaintext."""
 from .common import combined
 LEVEL = 'other'
-RULES = ('S-GATE', 'S-CMP', 'R05.e', 'R05.d', 'R06.a', 'R06.b', 'R06.c', 'R12.a', 'R16.a', 'R16.b', 'R16.e', 'R16.t', 'R16.l', 'R07.d', 'R07.e', 'R07.g', 'R07.t', 'R06.k')
+RULES = ('S-GATE', 'S-CMP', 'R05.e', 'R05.d', 'R06.a', 'R06.b', 'R06.c', 'R12.a', 'R16.a', 'R16.b', 'R16.e', 'R16.t', 'R16.l', 'R07.d', 'R07.e', 'R07.g', 'R07.t', 'R06.k', 'R08.f')
 
 
 def run(prog, rec, tier):
@@ -15,7 +15,7 @@ def run(prog, rec, tier):
     # ... and the text that is decoded must be the one the user gave with the key option
     from . import cli_rules
     cli_rules.CliRules(prog, rec).parser()
-    combined(prog, rec, tier, RULES, driver=('reader',), hmac=('scmp', 'structure'), hash=('drivers', 'buffer', 'buffer_sim', 'finaliser'), compress=True,
+    combined(prog, rec, tier, RULES, driver=('reader',), hmac=('scmp', 'structure'), hash=('drivers', 'buffer', 'buffer_sim', 'finaliser', 'factory'), compress=True,
              explanation='Decryption output is control-dependent on verify()==0; the tag compare accepts only when every digest byte '
              'was established equal; all 16 key bytes reach both hash inputs (inner prefix K0^ipad, outer prefix K0^opad, by content); '
              'the cipher streams get the same key object.')
